@@ -450,6 +450,7 @@ pub fn execute_l2(sc: &Scenario, mode: Mode, tag: &str, mut trace: Option<&mut V
   pool::install(pool::PoolConfig {
     workers: 1,
     schedule: pool::Schedule::Seeded { rng: Rng::new(knobs.sched_seed), policy: if knobs.policy == "fifo" { pool::Policy::Fifo } else { pool::Policy::Uniform { stick: 0 } } },
+    quantum_mean: 0,
   });
   samlang_heap::verif_hooks::set_gc_overrides(knobs.gc_slice, knobs.gc_sweep);
   let mut result = RunResult::default();
